@@ -114,6 +114,21 @@ C14_PART = (G, "gosym_part", dict(name="c14_type_plans", entry="internal/zzverif
                                   assumptions=["head tables in harness/go/internal/zzverif/zz_plan.go give the meaning of each runtime entry point",
                                                "type shapes limited to the generator in zz_gen.go (depth bound; union = 2 cases (+null); records 1-2 fields; one generic parameter)"]))
 
+C14_TRIVIAL_PART = (G, "gosym_part", dict(name="c14_memcpy_guard", entry="internal/zzverif.C14TriviallySerializable", args_quick=(3,), args_thorough=(4,),
+                                     required_sites=("specialization-is-for-the-record-type", "guard-is-a-known-constant-expression", "memcpy-only-if-standard-layout",
+                                                     "memcpy-only-if-every-field-trivially-serializable", "memcpy-only-if-members-in-field-order", "memcpy-only-if-no-padding"),
+                                     desc="the IsTriviallySerializable<Record> specialization cpp/binary emits (the compile-time guard of the memcpy fast path of WriteX/ReadX, vectors, arrays "
+                                          "and blocks of records) is read back, its `value` initializer parsed as a C++ constant expression (&&, ||, !, ==, <, +, sizeof, alignof, offsetof, "
+                                          "is_standard_layout_v, IsTriviallySerializable<decltype(member)>::value) and evaluated over a symbolic struct layout: per member a solver-chosen size "
+                                          "and alignment, ABI offsets, a nondeterministic member declaration order, symbolic standard-layout / per-field-trivial facts.  Guard true implies "
+                                          "standard layout, every field trivially serializable, members in field order, first member at offset 0 and no padding byte anywhere "
+                                          "(sizeof(T) = sum of member sizes), i.e. the memcpy image is the field-by-field encoding the plan prescribes; the converse is not required.  The "
+                                          "specialization must be for the record's own C++ type and mention only members the struct in types.h declares (read back from cpp/types)",
+                                     assumptions=["records of 1-3 (thorough 4) fields, plain or with one generic parameter, field names that map to themselves or to different C++ identifiers",
+                                                  "layout model: alignment in {1,2,4,8,16}, size a non-zero multiple of the alignment <= 64, offset_i = roundup(offset_{i-1}+size_{i-1}, align_i), "
+                                                  "sizeof(T) = end rounded up to the largest member alignment (Itanium / MSVC rule for standard-layout structs without bit-fields or packing pragmas)",
+                                                  "IsTriviallySerializable<member type> is taken (inductively) to mean that the member's memcpy image is its encoding"]))
+
 C02_UNION3_PART = (G, "gosym_part", dict(name="c02_union_tagging_3", entry="internal/zzverif.C02Union", args_quick=(3, 0, 1), args_thorough=(3, 1, 1), key_fn=None,
                                          required_sites=("cpp-python-agree", "python-untagged-only-if-unambiguous", "python-tagged-only-if-ambiguous"),
                                          desc="C++ and Python NDJSON generators take the same tag-or-not decision on 3-case unions over a reduced case vocabulary",
@@ -191,6 +206,27 @@ def c10_yaml_part(ctx, quick=True, depth=1, pairs=2, items=2, name=None):
 
 C10_YAML = [c10_yaml_part(0), c10_yaml_part(5), c10_yaml_part(6, depth=0), c10_yaml_part(10, pairs=1, items=2), c10_yaml_part(3, quick=False), c10_yaml_part(1, quick=False), c10_yaml_part(2, quick=False),
             c10_yaml_part(4, quick=False), c10_yaml_part(6, quick=False, name="c10_yaml_ctx6_switch"), c10_yaml_part(11, quick=False, pairs=1, items=2), c10_yaml_part(12, quick=False, pairs=1, items=2)]
+
+def c13_layout_part(bad, name, sites, desc):
+    return (G, "gosym_part", dict(name=name, entry="internal/zzverif.C13Layouts", args_quick=(bad, 2 + bad), args_thorough=(bad, 4 + bad), oracle=True,
+                                  extra_quick=("-max-paths", "60000"), extra_thorough=("-max-paths", "400000"), required_sites=sites,
+                                  assumptions=["the real dsl.ParseYamlInDir on a virtual package directory: os.Stat, filepath.Walk (the library's algorithm incl. its SkipDir / SkipAll rules), "
+                                               "os.Open and yaml.NewDecoder(file).Decode are engine models over the virtual file system; a model file's content is a sequence of yaml.Node "
+                                               "documents registered by the harness (natively: marshalled to text in a scratch directory and read by the real decoder)",
+                                               "layouts: 4 (5) definitions, the last 2 (all) of them placed in any of {a.yml, b.yaml, sub/c.yml, sub/deep/d.yml}, definitions sharing a file in one "
+                                               "document or one document each; next to them _package.yml, optionally notes.txt and one hidden non-model file (.gitignore / .DS_Store) in the "
+                                               "package directory or a sub-directory",
+                                               "this part enumerates layouts through the decision mechanism; it has no symbolic data (0 solver queries)"],
+                                  desc=desc))
+
+
+C13_LAYOUT_PARTS = [
+    c13_layout_part(0, "c13_file_layouts", ("every-layout-parses", "no-definition-lost-or-duplicated", "same-schema-as-single-file"),
+                    "the same definitions distributed over files, extensions, sub-directories and YAML documents: ParseYamlInDir finds every model file, no definition is lost or "
+                    "duplicated, Validate accepts, and the embedded schema equals that of the single-file layout"),
+    c13_layout_part(1, "c13_file_layouts_violation", ("violation-in-any-model-file-is-rejected",),
+                    "one more definition that violates a language rule, placed in any model file of any layout: rejected, naming that file"),
+]
 
 C13_YAML_PART = (G, "gosym_part", dict(name="c13_yaml_spellings", entry="internal/zzverif.C13Yaml", args_quick=(1,), args_thorough=(2,), oracle=True,
                                        extra_quick=("-max-paths", "60000"), extra_thorough=("-max-paths", "400000"),
@@ -489,6 +525,7 @@ PARTS = {
                                desc="the 16 type-level rule violations written as (part of) a type argument of the 10 generic carriers x {main, imported namespace} "
                                     "(quick: as record field, and a stream also as type argument of a protocol step; thorough: x {record field, alias, protocol step}): "
                                     "the real dsl.Validate returns an error naming the offending file")),
+        C13_LAYOUT_PARTS[1],  # a violation in any model file of any layout (sub-directories, hidden neighbours, several documents) is rejected
     ],
     "C13": [
         (G, "gosym_part", dict(name="c13_order_and_files", entry="internal/zzverif.C13Order", args_quick=(1,), args_thorough=(0,),
@@ -520,13 +557,14 @@ PARTS = {
                                desc="the real dsl.normalizeComment on a symbolic head comment: result equals the independently specified attached block, and prepending detached "
                                     "comment blocks / blank lines (non-documentation comments, whitespace) never changes it")),
         C13_YAML_PART,
-    ],
+    ] + C13_LAYOUT_PARTS,
     "C01": [
         (CC, "c01_cc_kernels", dict()),
         (CC, "c01_cc_serializers", dict(tiers=("thorough",))),
         (PY, "c01_py_kernels", dict()),
         (PYG, "c01_py_generated", dict()),
         C14_PART,
+        C14_TRIVIAL_PART,   # the memcpy fast path writes exactly the field-by-field bytes of docs/reference/binary.md (no padding)
         C01_CPP_PROTO_WRITER,
         C01_CPP_PROTO_READER,
     ],
@@ -535,6 +573,7 @@ PARTS = {
         (PY, "c02_py_converters", dict()),   # NDJSON converters + NDJsonProtocolReader line look-ahead (binary <-> NDJSON copies)
         C02_NULLFORM_PART,   # both languages read both renderings of the null case of a tagged nullable union
         C14_PART,
+        C14_TRIVIAL_PART,   # C++ writes the same bytes as the other languages also when it takes the memcpy path
         C02_UNION3_PART,
     ],
     "C16": [
@@ -589,6 +628,7 @@ PARTS = {
                                             "each explored path is replayed natively on real package directories (`versions:` map in _package.yml, model.yml per version) with no seams",
                                             "which predecessors are incompatible follows docs/cpp/evolution.md (reordered steps, removed step = breaking; added optional field = compatible; int -> string step = partially compatible)"],
                                desc="same with 3 previous versions, labels out of {v1, v2, v3}, every subset of incompatible predecessors, python + json outputs enabled")),
+        C13_LAYOUT_PARTS[1],  # no model file escapes validation because of where it lies
     ],
     "C02": [
         (PY, "c02_py_converters", dict()),
@@ -758,6 +798,7 @@ PARTS = {
                                assumptions=["head tables in harness/go/internal/zzverif/zz_plan.go give the meaning of each runtime entry point",
                                             "type shapes limited to the generator in zz_gen.go (depth bound; union = 2 cases (+null); records 1-2 fields; one generic parameter)"])),
         C02_UNION3_PART,   # Python NDJSON is one of the backends: same tagged/untagged decision as C++ and as the documented JSON kinds
+        C14_TRIVIAL_PART,   # the C++ memcpy fast path follows the per-field plan
         (G, "gosym_part", dict(name="c14_union_classes", entry="internal/zzverif.C14UnionClass", args_quick=(3,), args_thorough=(3,),
                                required_sites=("matlab-union-tag-byte-is-schema-position", "matlab-union-is-method-agrees-with-factory", "matlab-union-tag-list-agrees-with-factory",
                                                "matlab-union-one-factory-per-non-null-case", "matlab-union-reader-factory-is-the-case's",
